@@ -172,6 +172,8 @@ impl ConnectionState {
 
                 for (_, mut slot) in inner.chan_slots.drain() {
                     send(&slot.tx, Err(make_err()))?;
+                    #[cfg(amiquip_verif)]
+                    super::verif::failpoint("server_conn_close_after_reply");
                     for (_, tx) in slot.consumers.drain() {
                         send(&tx, ConsumerMessage::ServerClosedConnection(make_err()))?;
                     }
@@ -190,6 +192,8 @@ impl ConnectionState {
 
                 for (_, mut slot) in inner.chan_slots.drain() {
                     send(&slot.tx, Err(Error::ClientClosedConnection))?;
+                    #[cfg(amiquip_verif)]
+                    super::verif::failpoint("client_conn_close_after_reply");
                     for (_, tx) in slot.consumers.drain() {
                         send(&tx, ConsumerMessage::ClientClosedConnection)?;
                     }
@@ -227,6 +231,8 @@ impl ConnectionState {
                     message: close.reply_text.clone(),
                 };
                 send(&slot.tx, Err(make_err()))?;
+                #[cfg(amiquip_verif)]
+                super::verif::failpoint("server_chan_close_after_reply");
                 for (_, tx) in slot.consumers.drain() {
                     send(&tx, ConsumerMessage::ServerClosedChannel(make_err()))?;
                 }
@@ -291,6 +297,8 @@ impl ConnectionState {
                         AmqpBasic::CancelOk(cancel_ok),
                     ))),
                 )?;
+                #[cfg(amiquip_verif)]
+                super::verif::failpoint("cancel_ok_after_reply");
                 if let Some(tx) = consumer {
                     send(&tx, ConsumerMessage::ClientCancelled)?;
                 }
